@@ -97,6 +97,23 @@ func (d *Dir) Load() (*streams.Stream, error) {
 	return s, nil
 }
 
+// LoadGateway builds and initialises a stream the way the running gateway does (streams.NewStream: directories
+// from the environment, no validation mode - unusable flow files are skipped as long as some flow remains).
+func (d *Dir) LoadGateway() (*streams.Stream, error) {
+	Setup()
+	environment.SetStreamsFlowsDirectory(filepath.Join(d.Path, "flows"))
+	environment.SetQuotasDirectory(filepath.Join(d.Path, "quotas"))
+	environment.SetPathParamsDirectory(filepath.Join(d.Path, "path_params"))
+	s, err := streams.NewStream()
+	if err != nil {
+		return nil, err
+	}
+	if err := s.Initialize(); err != nil {
+		return nil, err
+	}
+	return s, nil
+}
+
 var SharedState = lunar_context.NewMemoryState[[]byte]()
 
 // Txn describes one transaction side.
